@@ -19,9 +19,12 @@ Holds(c, r) ==
     [] c = "ReportRenders"      -> ReportRenders(r)
     [] c = "Covered"            -> r.parsed => Covered(r)
     [] c = "EventGrammar"       -> r.parsed => EventGrammar(r.evk)
-Details == {"TokensAsSpecified"}
+\* the token stream is internal (hook H1): that it tiles the input is a design fact of the lexer, not a statement of C04 -
+\* an implementation that skips a byte-order mark before lexing breaks it without breaking the property (drift)
+Details == {"TokensAsSpecified", "TokensTile"}
 Agrees(d, r) ==
   CASE d = "TokensAsSpecified"  -> ("ptoks" \in DOMAIN r /\ r.lexed) => r.toks = r.ptoks
+    [] d = "TokensTile"         -> r.lexed => TokensTile(r) /\ TokensOnBoundaries(r)
 Failed(r) == {c \in Clauses : ~Holds(c, r)}
 Drift(r)  == {d \in Details : ~Agrees(d, r)}
 
